@@ -185,9 +185,14 @@ Definition collect_rollback_data (m desired : mem) : res (option rollback_data) 
     let sp := sv_len (stack desired) in
     let hp := mhp desired in
     if hp <? mhp m then rerr HostPanic                 (* assert!(hp >= self.hp) *)
-    else if sv_len (stack m) <? sp then rerr HostPanic (* &self.stack[..sp] out of range *)
     else
-      let stack_changes := get_changes (stack m) 0 (stack desired) 0 sp 0 in
+      (* the current stack can be shorter than the desired one (the heap has grown over it, or
+         the memory was reset): rollback re-extends it with zeros, so the missing tail is
+         compared against zeros (repaired in 75e7afe; before, `&self.stack[..sp]` panicked) *)
+      let common := N.min sp (sv_len (stack m)) in
+      let missing_tail := sv_resize sv_empty (saturating_sub sp common) in
+      let stack_changes := get_changes (stack m) 0 (stack desired) 0 common 0 ++
+                           get_changes missing_tail 0 (stack desired) common (sp - common) common in
       match checked_sub hp (heap_offset m), checked_sub hp (heap_offset desired) with
       | Some heap_start, Some desired_heap_start =>
         if (sv_len (heap m) <? heap_start) || (sv_len (heap desired) <? desired_heap_start)
@@ -200,12 +205,12 @@ Definition collect_rollback_data (m desired : mem) : res (option rollback_data) 
       | _, _ => rerr HostPanic                         (* expect("hp is out of bounds") *)
       end.
 
+Definition apply_step (base : N) (acc : res svec) (c : N * bytes) : res svec :=
+  let? v := acc in
+  let? local := usub (fst c) base in
+  if local + lenN (snd c) <=? sv_len v then rok (sv_write v local (snd c)) else rerr HostPanic.
 Definition apply_changes (v : svec) (base : N) (cs : list (N * bytes)) : res svec :=
-  fold_left (fun acc c =>
-               let? v := acc in
-               let? local := usub (fst c) base in
-               if local + lenN (snd c) <=? sv_len v then rok (sv_write v local (snd c)) else rerr HostPanic)
-            cs (rok v).
+  fold_left (apply_step base) cs (rok v).
 
 (* rollback(&mut self, data) *)
 Definition rollback (m : mem) (d : rollback_data) : res mem :=
@@ -292,31 +297,13 @@ Definition Rsnap (a : option mem) (b : option flat) : Prop :=
 Definition Rst (st : state) (sst : sstate) : Prop :=
   R (fst st) (fst sst) /\ Rsnap (snd st) (snd sst).
 
-(* The only operation whose refinement needs a side condition is rollback: the code computes the
-   stack changes from `self.stack[..snapshot_stack_len]`, which is defined only when the current
-   stack extent is at least the snapshot's (or the documented "heap may only shrink" assertion
-   fires first). *)
-Definition rollback_defined (sst : sstate) (op : sop) : Prop :=
-  match op, snd sst with
-  | SRollback, Some f0 => hp f0 < hp (fst sst) \/ stk_hi f0 <= stk_hi (fst sst)
-  | _, _ => True
-  end.
-
-Fixpoint hist_defined (sst : sstate) (ops : list sop) : Prop :=
-  match ops with
-  | [] => True
-  | op :: r => rollback_defined sst op /\ hist_defined (fst (step_spec sst op)) r
-  end.
-
 (* the representation invariant of a history state (instance and saved clone) *)
 Definition InvSt (st : state) : Prop :=
   Inv (fst st) /\ match snd st with Some m0 => Inv m0 | None => True end.
 
-(* the refinement WITHOUT the side condition on rollback: false, see MemProofs *)
-Definition refines_all_histories : Prop :=
-  forall ops, snd (run_spec sstate_init ops) = map denote_out (snd (run state_init ops)).
-
-(* heap growth truncates the stack below the snapshot's extent, then rollback *)
+(* Regression witness for the rollback repair 75e7afe: heap growth truncates the stack below the
+   snapshot's extent, then rollback.  HISTORICAL: before 75e7afe collect_rollback_data panicked here
+   (slice `self.stack[..sp]` out of range) and the refinement needed a side condition on rollback;
+   the history is kept in the harness corpus and in MemProofs.witness_history_restores. *)
 Definition witness_history : list sop :=
-  [SGrowStack 1000; SWrite 900 [1; 2; 3]; SSnapshot; SGrowHeap 0 (MEM_SIZE - 500); SRollback].
-
+  [SGrowStack 1000; SWrite 900 [1; 2; 3]; SSnapshot; SGrowHeap 0 (MEM_SIZE - 500); SRollback; SRead 898 6].
